@@ -3,6 +3,17 @@ import NV.C19.Sched
 
 namespace NV.C19
 
+/-- the order of doorbell reset and ring drain AS THE SOURCE HAS IT (regenerated) -/
+def codeOrder : Order := if Gen.C19.waitReadsBellBeforeLock then .bellFirst else .ringFirst
+
+/-- **bridging lemma**: `async_runtime_wait` reads (resets) the doorbell before it takes `ring_lock`, and re-arms under
+    the lock — the order for which `no_lost_wakeup` is proved (`RtSys.init` default) -/
+theorem wait_order_eq : codeOrder = .bellFirst ∧ Gen.C19.waitRearmsUnderLock = true := by decide
+
+/-- **bridging lemma**: `async_runtime_post_completion` pushes under the lock BEFORE it writes the doorbell
+    (`Rt.post`, `RtSys.prodStep`: push, then `ringBell`) -/
+theorem post_order_eq : Gen.C19.postPushesBeforeBell = true := by decide
+
 /-! ### safety: what the waits returned ++ what is in the ring = what was pushed, in push order -/
 
 theorem Rt.push_true {s rt' : Rt} {it : Item} (h : s.push it = (rt', true)) :
